@@ -473,6 +473,10 @@ class Gen:
             dec(d, b'\x00\x01a\x7f' + run + b'\x01')
             dec(d, b'\xff' + b'\x80' * k + b'\x00')            # redundant zeros: value 127
             dec(d, b'\x3f' + b'\x80' * k + b'\x00')
+            dec(d, b'\xff' + b'\x80' * k + b'\x01')            # zero-payload run, then a non-zero digit: huge value
+            dec(d, b'\x7f' + b'\x80' * k + b'\x7f' + b'\x00')
+            dec(d, b'\x00\x7f' + b'\x80' * k + b'\x01')
+            dec(d, b'\x3f' + b'\x80' * k + b'\x01')
         # buffer kinds
         d = new()
         for ann in (' #buf=bytearray', ' #buf=memoryview', ' #buf=memoryview-bytearray', ''):
